@@ -232,7 +232,19 @@ pub fn render_operand(o: &Operand) -> String {
 pub fn fp_dict_entries(entries: &[(u16, Vec<String>)], kind: DictKind, normalise: bool, mask_offsets: bool, prefix: &str) -> Fp {
     let mut f = Vec::new();
     let mut i = 0;
+    let mut seen_offset_ops: Vec<u16> = Vec::new();
     for (op, operands) in entries {
+        // A repeated offset-carrying operator (only met in faulted inputs) is shadowed by the first
+        // occurrence; the whole-font writers patch every occurrence with the recomputed offset, so
+        // its operands are layout, not content: kept as an entry, never compared by value.
+        if mask_offsets && matches!(*op, 15 | 16 | 17 | 18 | 19 | 24 | 0x0C24 | 0x0C25) {
+            if seen_offset_ops.contains(op) {
+                f.push((format!("{}entry[{}]", prefix, i), format!("op {:#06x}: <shadowed duplicate>", op)));
+                i += 1;
+                continue;
+            }
+            seen_offset_ops.push(*op);
+        }
         if normalise && dict_default(kind, *op).as_ref() == Some(operands) {
             continue;
         }
